@@ -6,7 +6,7 @@ tree and fails with the patch.  Then runs ./check <PROP> against /repo with the 
 import json, os, shutil, subprocess, sys, time
 prop, n, demo = sys.argv[1], sys.argv[2], sys.argv[3]
 needs = sys.argv[5] if len(sys.argv) > 5 and sys.argv[4] == "--needs" else ""
-wt = "/tmp/seed/%s" % prop
+wt = "%s/%s" % (os.environ.get("SEED_ROOT", "/tmp/seed"), prop)
 src = "%s/seedout/%s" % (wt, n)
 env = dict(os.environ, GOFLAGS="-mod=mod", GOPROXY="off", GOSUMDB="off", GOTOOLCHAIN="local")
 def run(cmd, cwd=wt, timeout=900):
@@ -38,7 +38,7 @@ finally:
     # the evidence file must describe a run on the unchanged tree: put the previous one back
     if saved_ev is not None:
         open(evp, "wb").write(saved_ev)
-dst = "/verif/seeded/%s-%s" % (prop, n)
+dst = "/verif/seeded/%s-%s" % (prop, os.environ.get("SEED_AS", n))
 os.makedirs(dst, exist_ok=True)
 for f in os.listdir(src):
     if f.endswith(".log"):
